@@ -311,4 +311,28 @@ CHECKS = {
                    rapid("lrufile", "TestLru", 40000, 1600000, qs=4, ts=16, qt=600, tt=5400),
                    rapid("farseeks", "TestFar", 8, 160, qs=4, ts=8, qt=600, tt=5400, shrinktime="10s")],
     },
+    "C10": {
+        "title": "Malformed patch/signature/overlay streams yield an error, never a crash",
+        "level": "exploration",
+        "technique": "truncation enumeration + rapid structured mutation of decoded message lists (re-framed, re-compressed) + Go native coverage-guided fuzzing (thorough tier); oracle: no panic, returns within a watchdog",
+        "level_text": ("Corpus: valid streams from three small build pairs (plain and optimized patch, signature, overlay). (1) every byte-level "
+                       "truncation of every corpus stream under none/gzip/brotli framing (streams > 6000 bytes: first 2048, last 128, +-3 around "
+                       "every message boundary, stride); (2) structured mutation of the decoded message list - indices/spans/lengths/seeks set to "
+                       "hostile constants (-1, 0, 1, n-1..n+2, 2049, 2^31, 2^40, 2^62, -2^63, 2^63-1), unknown op/series types, series kinds swapped, "
+                       "end markers dropped/duplicated/inserted, messages dropped/duplicated/reordered/cut, add/copy/data lengths changed, fewer or "
+                       "more block hashes - re-framed and re-compressed so framing stays valid, containers never mutated; (3) thorough tier: go "
+                       "test -fuzz on the uncompressed byte stream for 4 targets, inputs violating the stated precondition discarded and counted. "
+                       "Targets: patcher.New+Resume+Commit (fresh bowl in a temp dir, dry bowl), rediff.NewContext+Optimize, ReadSignature+"
+                       "ComputeHashInfo+ValidateAsError, OverlayPatchContext.Patch onto a temp file. Oracle: error or nil, never a panic "
+                       "(recover in-process, journal for goroutine panics), returns within 20s (watchdog + confirmation run)."),
+        "level_note": "native fuzzing cannot be pinned to a seed; its saved crashers are the reproducible unit (they replay through ./check C10 --replay).",
+        "rule": ("evaluations = streams fed to a target. Non-trivial: a truncated or mutated stream whose mutation lies behind the containers (the "
+                 "target must handle ops to reach it). Distinct: enumerated prefixes by construction, mutations by SHA-1 of the spec."),
+        "assumptions": ["the two containers in a stream are well-formed and no message declares a length beyond the stream (the property's own precondition)"],
+        "required_classes": {"quick": ["target:apply-fresh", "target:optimize", "target:signature", "target:overlay", "mutation:set:fileIndex", "framing:compressed", "truncation:every-prefix"],
+                             "thorough": ["target:apply-fresh", "target:optimize", "target:signature", "target:overlay", "mutation:set:fileIndex", "framing:compressed", "truncation:every-prefix"]},
+        "stages": [enum("truncate", "TestTruncate", qs=16, ts=16, qt=900, tt=5400),
+                   rapid("mutate", "TestMutate", 8000, 320000, qs=16, ts=16, qt=600, tt=5400)],
+        "fuzz": {"targets": ["FuzzApplyFresh", "FuzzOptimize", "FuzzSignature", "FuzzOverlay"], "seconds": 240, "workers": 4},
+    },
 }
